@@ -34,8 +34,27 @@ Theorem C04_group_none size cliques proj : group_of size cliques proj = None ->
 Proof. exact (first_containing_none proj (sorted_cliques size cliques)). Qed.
 Print Assumptions C04_group_none.
 
-(* PARTIAL: the smoothness bound (largest eigenvalue of the Hessian <= the constant _lipschitz returns) is an eigenvalue
-   statement over the reals and is NOT proved; it is decided per run against numpy.linalg.eigvalsh of the dense Hessian. *)
-
 Example C04_example : loss_m (fun i j => if Nat.eqb i j then 1 else 0) 2 2 (fun i => Q2Qc (Z.of_nat i # 1)) 1 (fun _ => 1) = Q2Qc (1 # 2).
 Proof. vm_compute. reflexivity. Qed.
+
+(* SMOOTHNESS CONSTANT (on the reals).  Summing a clique table onto a sub-clique whose cells each collect m = n/p cells inflates the
+   squared norm by at most m (Cauchy-Schwarz per block); hence a bound e on the quadratic form of Q^T Q gives e*(n/p)*c^2 for the
+   measurement's contribution to the Hessian form in terms of the clique table; contributions on one clique add, and across cliques
+   (block-diagonal Hessian) the maximum - what _lipschitz returns - bounds the whole form. *)
+Require Import Reals PGM.Proofs.SmoothP.
+Theorem C04_marginalisation_norm_bound (m : nat) blocks : (forall b, In b blocks -> length b = m) -> (sumsq (marg blocks) <= INR m * allsq blocks)%R.
+Proof. exact (marg_bound m blocks). Qed.
+Print Assumptions C04_marginalisation_norm_bound.
+Theorem C04_measurement_smoothness (qform : list R -> R) e c (m : nat) blocks :
+  (0 <= e)%R -> (forall w, (qform w <= e * sumsq w)%R) -> (forall b, In b blocks -> length b = m) ->
+  (c * c * qform (marg blocks) <= e * INR m * (c * c) * allsq blocks)%R.
+Proof. exact (measurement_bound qform e c m blocks). Qed.
+Print Assumptions C04_measurement_smoothness.
+Theorem C04_maximum_over_cliques (hs Ls nzs : list R) (Lmax : R) : length hs = length Ls -> length hs = length nzs ->
+  (forall i, (nth i hs 0 <= nth i Ls 0 * nth i nzs 0)%R) -> (forall i, (nth i Ls 0 <= Lmax)%R) -> (forall i, (0 <= nth i nzs 0)%R) ->
+  (lsum hs <= Lmax * lsum nzs)%R.
+Proof. exact (max_over_cliques hs Ls nzs Lmax). Qed.
+Print Assumptions C04_maximum_over_cliques.
+(* PARTIAL: that eigsh returns an upper bound e of the quadratic form of Q^T Q (its largest eigenvalue) is external; the constant the
+   code returns is compared per run with numpy.linalg.eigvalsh of the dense Hessian. *)
+
